@@ -144,6 +144,13 @@ def run(ck):
             lines += ["rx c0 " + apci.s_frame((vs0 + a) % 32768).hex(), "tick 4"]
         bad_nr = (vs0 + total + rng.choice([1, 2, 100])) % 32768
         lines += ["rx c0 " + apci.s_frame(bad_nr).hex(), "tick 2"]
+        if i % 3 == 0:
+            # the connection is gone now; re-configure k and reconnect on the same slot: the NEW k must be the one used
+            k2 = rng.choice([1, 2, 3, 5, 12, 20])
+            lines += ["tick 2", "cfg k=%d" % k2, "connect c1 10.0.0.9:100", "tick", "rx c1 " + apci.STARTDT_ACT.hex(), "tick"]
+            for j in range(k2 + 6):
+                lines.append("enq " + apci.asdu(30, 3, 1, bytes([j, 0, 0])).hex())
+            lines += ["tick %d" % (k2 + 8), "rxs c1 -1", "tick %d" % (k2 + 8), "rxs c1", "tick %d" % (k2 + 8)]
         sid = "w%d" % i
         tscripts.append((sid, lines))
         tmeta[sid] = (k, burst, vs0, steps)
@@ -186,6 +193,52 @@ def run(ck):
                 closed = True
         # window bound: reconstruct from the script order -- acks happen only at script steps; between two acks at most k new frames
         # (conservative check: total sent never exceeds last ack + k at the end of each phase is implied by N(S) continuity + final counts)
+        # window bound: walk script and output in lock step (tick blocks end with `open N`)
+        blocks, curb = [], []
+        for l in o["out"]:
+            curb.append(l)
+            if l.startswith("open "):
+                blocks.append(curb)
+                curb = []
+        bi = 0
+        kcur, kconn, seen, ackd, pend = k, {}, {}, {}, None
+        for l in lines:
+            t = l.split()
+            if t[0] == "cfg":
+                for x in t[1:]:
+                    if x.startswith("k="):
+                        kcur = int(x[2:])
+            elif t[0] in ("rxs", "rxi"):
+                ci = int(t[1][1:])
+                d = int(t[2]) if (t[0] == "rxs" and len(t) > 2) else (int(t[4]) if (t[0] == "rxi" and len(t) > 4) else 0)
+                pend = (ci, seen.get(ci, 0) + d)
+            elif t[0] == "rx" and t[2].startswith("6804010"):
+                ci = int(t[1][1:])
+                fr = bytes.fromhex(t[2])
+                pend = (ci, None, ((fr[4] >> 1) | (fr[5] << 7)))
+            elif t[0] == "tick" and bi < len(blocks):
+                blk = blocks[bi]
+                bi += 1
+                for x in blk:
+                    if x.startswith("ev ") and x.endswith("OPENED"):
+                        kconn[int(x.split()[1][1:])] = kcur
+                if pend and len(pend) == 2:
+                    ci, a = pend
+                    if 0 <= a <= seen.get(ci, 0):
+                        ackd[ci] = max(ackd.get(ci, 0), a)
+                elif pend:
+                    ci, _, nr = pend
+                    a = ackd.get(ci, 0) + ((nr - (vs0 if ci == 0 else 0) - ackd.get(ci, 0)) % 32768)
+                    if a <= seen.get(ci, 0):
+                        ackd[ci] = a
+                pend = None
+                for x in blk:
+                    if x.startswith("tx "):
+                        ci = int(x.split()[1][1:])
+                        n = sum(1 for f in apci.split_stream(bytes.fromhex(x.split()[2]))[0] if apci.parse_apdu(f)["kind"] == "I")
+                        seen[ci] = seen.get(ci, 0) + n
+                        if ci in kconn and seen[ci] - ackd.get(ci, 0) > kconn[ci] and not bad:
+                            bad = "c%d has %d I-frames sent and not acknowledged, k=%d was configured when it was accepted" % (ci, seen[ci] - ackd.get(ci, 0), kconn[ci])
         if not bad and ids != sorted(ids):
             bad = "replies transmitted out of order: %s" % ids
         if not bad and sorted(set(ids)) != sorted(ok_sends):
